@@ -396,3 +396,20 @@ func inputPair(r *hxlib.Rng, k int) (a, b [32]byte) {
 	}
 	return
 }
+
+// failK records an oracle failure; at most two failures per class (signature +
+// decoder + kind/cause/round) are kept in full so that a flood of one class
+// cannot hide another (hxlib.Out.Fail keeps the first 20 of any kind).
+var failSeen = map[string]int{}
+
+func failK(o *hxlib.Out, sig string, detail map[string]any) {
+	key := fmt.Sprint(sig, "|", detail["decoder"], "|", detail["kind"], "|", detail["cause"], "|", detail["round"], "|", detail["what"])
+	failSeen[key]++
+	o.Counters["oracle_fail"]++
+	o.Counters["fail_"+sig]++
+	if failSeen[key] > 2 || len(o.OracleFails) >= 80 {
+		return
+	}
+	detail["sig"] = sig
+	o.OracleFails = append(o.OracleFails, detail)
+}
